@@ -78,37 +78,72 @@ func r092(c *Ctx) {
 	if prevCell != nil {
 		// each of the two cells: all stores are loads of t.state made under inflightLock
 		var storesByCell = map[*ssa.Alloc][]*ssa.Store{prevCell: storesToCell(prevCell), newCell: storesToCell(newCell)}
+		var stateStores []ssa.Instruction
+		for _, s := range c.targetStateStores() {
+			if outer(s.fn) == hcc {
+				dup := false
+				for _, x := range stateStores {
+					if x == ssa.Instruction(s.instr) {
+						dup = true
+					}
+				}
+				if !dup {
+					stateStores = append(stateStores, s.instr)
+				}
+			}
+		}
+		// a reading of the state: the cell is assigned a load of t.state, or the cell's content is what a state store
+		// writes (`newState = f(...); t.state = newState`): then the cell holds the state as of that store
+		type reading struct {
+			at     ssa.Instruction
+			selfOf ssa.Instruction // the state store this reading coincides with, if any
+		}
+		readings := map[*ssa.Alloc][]reading{}
 		allLocked := true
-		for _, sts := range storesByCell {
+		for cell, sts := range storesByCell {
 			if len(sts) == 0 {
 				allLocked = false
 			}
 			for _, st := range sts {
-				if !isLoadOfField(st.Val, stateF) || !li.holds(st, lock, modeW) {
-					allLocked = false
+				if isLoadOfField(st.Val, stateF) && li.holds(st, lock, modeW) {
+					readings[cell] = append(readings[cell], reading{at: st})
+					continue
 				}
+				var via ssa.Instruction
+				for _, ss := range stateStores {
+					sst := ss.(*ssa.Store)
+					if sst.Parent() == st.Parent() && cellOfLoad(sst.Val) == cell && dominates(st, sst) && li.holds(sst, lock, modeW) && li.holds(st, lock, modeW) {
+						via = ss
+					}
+				}
+				if via == nil {
+					allLocked = false
+					continue
+				}
+				readings[cell] = append(readings[cell], reading{at: via, selfOf: via})
 			}
 		}
-		c.ob(rule, "HealthCheckCompleted/both-readings-under-target-lock", notify.Pos(), allLocked, true, "the 'before' and 'after' states compared for change detection must both be read from t.state while holding inflightLock (a stale 'before' can hide a change and skip the refresh, and is a data race with Drain)")
+		c.ob(rule, "HealthCheckCompleted/both-readings-under-target-lock", notify.Pos(), allLocked, true, "the 'before' and 'after' states compared for change detection must both be read from t.state (or be the very value stored into it) while holding inflightLock (a stale 'before' can hide a change and skip the refresh, and is a data race with Drain)")
 		// one cell is read before any state store, the other after all of them (order within the locked closure)
-		var stateStores []ssa.Instruction
-		for _, s := range c.targetStateStores() {
-			if outer(s.fn) == hcc {
-				stateStores = append(stateStores, s.instr)
-			}
-		}
 		classify := func(cell *ssa.Alloc) string {
 			before, after := true, true
-			for _, st := range storesByCell[cell] {
+			if len(readings[cell]) == 0 {
+				return "none"
+			}
+			for _, rd := range readings[cell] {
 				for _, ss := range stateStores {
-					if st.Parent() != ss.Parent() {
+					if rd.selfOf == ss {
+						before = false // the value of this very store
+						continue
+					}
+					if rd.at.Parent() != ss.Parent() {
 						before, after = false, false
 						continue
 					}
-					if _, r := reach(st.Parent(), ss, func(in ssa.Instruction) bool { return in == ssa.Instruction(st) }, nil); r {
+					if _, r := reach(rd.at.Parent(), ss, func(in ssa.Instruction) bool { return in == rd.at }, nil); r {
 						before = false // the reading can come after a state store
 					}
-					if _, r := reach(st.Parent(), st, func(in ssa.Instruction) bool { return in == ss }, nil); r {
+					if _, r := reach(rd.at.Parent(), rd.at, func(in ssa.Instruction) bool { return in == ss }, nil); r {
 						after = false // a state store can come after the reading
 					}
 				}
